@@ -120,7 +120,11 @@ def model_check(module, cfg=None, env=None, workers=None, timeout=3600, extra=()
     """Run TLC on spec_dir/module.tla with spec_dir/cfg (default module.cfg)."""
     cfg = cfg or module + ".cfg"
     meta = scratch("vt-tlc-")
-    cmd = _java(["-Xmx" + heap]) + ["tlc2.TLC", "-workers", str(workers or NCPU), "-metadir", meta,
+    # the JVM sizes its GC / JIT thread pools by the processor count: tell it how many this run may use,
+    # or 16 single-worker oracle shards start 16 x 16 helper threads
+    nproc = max(2, int(workers or NCPU))
+    cmd = _java(["-Xmx" + heap, "-XX:ActiveProcessorCount=%d" % nproc]) + [
+        "tlc2.TLC", "-workers", str(workers or NCPU), "-metadir", meta,
                                     "-noGenerateSpecTE", "-config", cfg]
     if coverage:
         cmd += ["-coverage", "1"]
